@@ -580,6 +580,10 @@ def lean_ty(t):
         return " × ".join(f"({lean_ty(x)})" if isinstance(x, tuple) else lean_ty(x) for x in t[1])
     if isinstance(t, tuple) and t[0] == "st":
         return t[1]
+    if t == "SET":
+        return "List Nat"
+    if isinstance(t, tuple) and t[0] == "fn":
+        return "(" + " → ".join(lean_ty(x) for x in t[1]) + " → " + lean_ty(t[2]) + ")"
     raise Untranslatable(f"lean type {t}")
 
 
@@ -664,6 +668,9 @@ class Lower:
             if e[2] == "f64" and t == "S":
                 return s, t
             raise Untranslatable(f"cast as {e[2]}")
+        if k == "bin" and e[1] == "..":
+            src, et = self.iter_source(e, env)
+            return src, ("list", et)
         if k == "bin":
             return self.binop(e, env)
         if k == "field":
@@ -874,6 +881,9 @@ class Lower:
                 return f"({s}.foldl {f} {i0})", it0
             if m == "windows" and len(args) == 1 and args[0] == ("num", "2"):
                 return f"(windows2 {s})", ("list", ("list", et))
+            if m == "contains" and len(args) == 1 and et == "N":
+                a, ta = self.ex(args[0], env, "N")
+                return f"({s}.contains {a})", "B"
             if m == "len" and not args:
                 return f"{s}.length", "N"
             if m in ("iter", "to_vec") and not args:
@@ -891,6 +901,14 @@ class Lower:
                 a, ta = self.ex(args[0], env)
                 if isinstance(ta, tuple) and ta[0] == "list":
                     return f"({s}.zip {a})", ("list", ("tup", [t[1], ta[1]]))
+        if t == "SET":
+            if m == "contains" and len(args) == 1:
+                a, ta = self.ex(args[0], env, "N")
+                return f"({s}.contains {a})", "B"
+            if m in ("iter", "into_iter", "copied", "cloned", "collect") and not args:
+                return s, ("list", "N")
+            if m == "len" and not args:
+                return f"{s}.length", "N"
         if isinstance(t, tuple) and t[0] == "opt" and m == "unwrap" and not args and self.cfg.get("unwrap_default"):
             # `unwrap` on an option the code's invariant makes `Some`: the model reads `default` otherwise
             return f"({s}.getD default)", t[1]
@@ -947,6 +965,9 @@ class Lower:
         if name in self.known:
             ln, pts, rt = self.known[name]
             return self.app(ln, [], args, pts, env), rt
+        if len(path) == 1 and name in env and isinstance(env[name][1], tuple) and env[name][1][0] == "fn":
+            nm, (_, pts, rt) = env[name]
+            return self.app(nm, [], args, pts, env), rt
         raise Untranslatable(f"call of {'::'.join(path)}")
 
     def struct(self, e, env):
@@ -985,14 +1006,17 @@ class Lower:
         arms = []
         rt = None
         for (pat, body) in e[2]:
-            pn = pat.split("::")[-1]
-            var = self.cfg.get("variants", {}).get(pn)
-            if pn == "_":
-                lp = "_"
-            elif var:
-                lp = var[0]
-            else:
-                raise Untranslatable(f"match pattern {pat}")
+            lps = []
+            for alt in pat.split("|"):
+                pn = alt.split("::")[-1]
+                var = self.cfg.get("variants", {}).get(pn)
+                if pn == "_":
+                    lps.append("_")
+                elif var:
+                    lps.append(var[0])
+                else:
+                    raise Untranslatable(f"match pattern {pat}")
+            lp = " | ".join(lps)
             bs, bt = self.ex(body, env, want)
             rt = rt or bt
             arms.append(f"| {lp} => {bs}")
@@ -1016,6 +1040,16 @@ class Lower:
                 v = st[1][1][1][0]
                 if v in env and v not in out:
                     out.append(v)
+            elif st[0] == "semi" and st[1][0] == "mcall" and st[1][2] in ("insert", "remove", "retain") and st[1][1][0] == "path":
+                v = st[1][1][1][0]
+                if v in env and env[v][1] == "SET" and v not in out:
+                    out.append(v)
+            elif st[0] in ("semi", "tail") and st[1][0] == "match":
+                for (_, body) in st[1][2]:
+                    b = body[1] if body[0] == "blockexpr" else [("semi", body)]
+                    for v in self.assigned(b, env):
+                        if v not in out:
+                            out.append(v)
             elif st[0] == "for":
                 # (a loop variable or inner `let` shadowing an outer name is not expected in this code)
                 for v in self.assigned(st[3], env):
@@ -1219,6 +1253,50 @@ class Lower:
                 return f"(let {val} := (if {c} then {a} else {b}); {rest})", rt
             if last and e[0] == "match":
                 return self.ex(e, env, want)
+            if e[0] == "match":
+                # a match statement whose arms mutate locals: the mutated variables become its value
+                mv = self.assigned([st], env)
+                if not mv:
+                    raise Untranslatable("match statement without effect on locals")
+                val, tailst = self.state_of(mv, env)
+                sc, tsc = self.ex(e[1], env)
+                arms = []
+                for (pat, body) in e[2]:
+                    lps = []
+                    for alt in pat.split("|"):
+                        pn = alt.split("::")[-1]
+                        var = self.cfg.get("variants", {}).get(pn)
+                        if pn == "_":
+                            lps.append("_")
+                        elif var:
+                            lps.append(var[0])
+                        else:
+                            raise Untranslatable(f"match pattern {pat}")
+                    b = body[1] if body[0] == "blockexpr" else [("semi", body)]
+                    bs, _ = self.block(b + [tailst], dict(env))
+                    arms.append("| " + " | ".join(lps) + " => " + bs)
+                rest, rt = self.seq(stmts, i + 1, env, want)
+                return f"(let {val} := (match {sc} with " + " ".join(arms) + f"); {rest})", rt
+            if e[0] == "mcall" and e[2] in ("insert", "remove", "retain") and e[1][0] == "path" and len(e[1][1]) == 1 \
+                    and e[1][1][0] in env and env[e[1][1][0]][1] == "SET":
+                v = e[1][1][0]
+                nm, t = env[v]
+                if e[2] == "insert":
+                    a, _ = self.ex(e[3][0], env, "N")
+                    upd = f"(setInsert {nm} {a})"
+                elif e[2] == "remove":
+                    a, _ = self.ex(e[3][0], env, "N")
+                    upd = f"(setRemove {nm} {a})"
+                else:
+                    cl = e[3][0]
+                    if cl[0] != "closure" or len(cl[1]) != 1:
+                        raise Untranslatable("retain expects a closure")
+                    env_c = dict(env)
+                    pv = self.bind_pat(cl[1][0], "N", env_c)
+                    b, bt = self.ex(cl[2], env_c, "B")
+                    upd = f"({nm}.filter (fun {pv} => {b}))"
+                rest, rt = self.seq(stmts, i + 1, env, want)
+                return f"(let {nm} := {upd}; {rest})", rt
             if e[0] == "mcall" and e[2] == "push" and e[1][0] == "path" and len(e[1][1]) == 1 and e[1][1][0] in env:
                 v = e[1][1][0]
                 nm, t = env[v]
@@ -1298,7 +1376,10 @@ def translate_group(pid, group, report):
                     raise Untranslatable("fragment pattern not found")
                 plist = [(("pid", n), tuple(t) if isinstance(t, list) else t) for n, t in f["params"]]
                 rt = f["ret"]
-                body = "{ " + m.group(1) + " " + f.get("tail", "") + " }"
+                text = m.group(1)
+                for a, b in f.get("subst", []):
+                    text = text.replace(a, b)
+                body = "{ " + text + " " + f.get("tail", "") + " }"
                 sigs[key] = (f, fcfg, plist, rt, body)
                 known[key] = ("GenRs." + f["lean"], [p[1] for p in plist], rt)
                 continue
